@@ -217,15 +217,23 @@ func containsKind(n Node, kinds ...string) bool {
 	return found
 }
 
+// nilCollapse: the value contains false or an empty map, which Lisp can only hold as nil.
+func nilCollapse(n Node) bool {
+	found := false
+	n.Walk(func(x Node) {
+		if x.T == "false" || (x.T == "obj" && len(x.A) == 0) {
+			found = true
+		}
+	})
+	return found
+}
+
 func runBridge(c BCase) *h.Result {
 	res := &h.Result{Classes: []string{"go:" + c.V.T}}
 	res.NonTrivial = c.V.Depth() >= 1 || !(c.V.T == "i64" || c.V.T == "f64" || c.V.T == "str")
 	switch {
-	case containsKind(c.V, "obj") && h.ExclOn("bridge-map"):
-		res.Skip = "bridge-map"
-		return res
-	case containsKind(c.V, "false") && h.ExclOn("bridge-false"):
-		res.Skip = "bridge-false"
+	case nilCollapse(c.V) && h.ExclOn("bridge-nil-collapse"):
+		res.Skip = "bridge-nil-collapse"
 		return res
 	}
 	v, want := goValue(c.V)
@@ -415,6 +423,15 @@ var gridDoc = Node{T: "obj", K: []string{"a", "b", "c", "d"}, A: []Node{
 	{T: "obj"},
 }}
 
+func containsDesc(fs []Frag) bool {
+	for _, f := range fs {
+		if f.K == "desc" {
+			return true
+		}
+	}
+	return false
+}
+
 func enumPaths(t *testing.T) {
 	alphabet := []Frag{
 		{K: "key", S: "a"}, {K: "key", S: "b"}, {K: "key", S: "zz"}, {K: "idx", I: 0}, {K: "idx", I: 1}, {K: "idx", I: -1}, {K: "idx", I: 5},
@@ -430,8 +447,8 @@ func enumPaths(t *testing.T) {
 			return
 		}
 		for _, f := range alphabet {
-			if f.K == "desc" && len(prefix) > 0 && prefix[len(prefix)-1].K == "desc" {
-				continue
+			if f.K == "desc" && containsDesc(prefix) {
+				continue // what a second descent multiplies is not fixed anywhere: one descent per path
 			}
 			build(append(prefix, f), n-1)
 		}
